@@ -41,8 +41,56 @@ func aliasTargets(r *rng) []int {
 	return ts
 }
 
+// growCases: [build A; add; build B; build A] and [A; add; B; A; B] for every ordered pair of the
+// eight targets (Add and AddAll), then random longer interleavings
+func growCases(r *rng, thorough bool) {
+	mixed := func(n, from int) []modbus.Field {
+		sc := fieldScenario{servers: []string{"a", "b_1"}, units: []uint8{1, 2}}
+		fs := genFields(r, sc, n, 50, false)
+		for i := range fs {
+			fs[i].Name = strconv.Itoa(from + i)
+		}
+		return fs
+	}
+	for a := 0; a < 8; a++ {
+		for b := 0; b < 8; b++ {
+			if a == b {
+				continue
+			}
+			ini := mixed(4+r.intn(4), 0)
+			p1 := mixed(2+r.intn(3), len(ini))
+			p2 := mixed(1+r.intn(3), len(ini)+len(p1))
+			splitGrowCase(ini, [][]modbus.Field{p1}, []int{a, -1, b, a}, uint64(a*8+b))
+			splitGrowCase(ini, [][]modbus.Field{p1}, []int{a, -2, b, a, b}, uint64(a*8+b))
+			splitGrowCase(ini, [][]modbus.Field{p1, p2}, []int{a, -1, b, -2, a, b, a}, uint64(a*8+b))
+		}
+	}
+	n := 300
+	if thorough {
+		n = 3000
+	}
+	for i := 0; i < n; i++ {
+		ini := mixed(r.intn(8), 0)
+		total := len(ini)
+		var portions [][]modbus.Field
+		var ops []int
+		for j, steps := 0, 4+r.intn(8); j < steps; j++ {
+			if r.intn(3) == 0 {
+				p := mixed(1+r.intn(4), total)
+				total += len(p)
+				portions = append(portions, p)
+				ops = append(ops, -1-r.intn(2))
+			} else {
+				ops = append(ops, r.intn(8))
+			}
+		}
+		splitGrowCase(ini, portions, ops, uint64(r.intn(65536)))
+	}
+}
+
 func streamBuilderAlias(seed uint64, thorough bool) {
 	r := newRng(seed ^ 0xBA1)
+	growCases(r, thorough)
 	n := 1500
 	if thorough {
 		n = 15000
